@@ -161,7 +161,14 @@ fn pure_model_record(model: usize, u: &mut Uniq, k: usize) -> Value {
         // SAFT-VRQ Mie
         2 => json!({"m": 1.0, "sigma": u.val(2.6, 3.2), "epsilon_k": u.val(20.0, 40.0), "lr": u.val(9.0, 13.0), "la": 6.0, "fh": 1 + k % 2}),
         // ePC-SAFT (neutral species)
-        3 => json!({"m": u.val(1.0, 3.0), "sigma": u.val(3.0, 4.0), "epsilon_k": u.val(150.0, 300.0)}),
+        3 => {
+            if k % 2 == 1 {
+                json!({"m": u.val(1.0, 3.0), "sigma": u.val(3.0, 4.0), "epsilon_k": u.val(150.0, 300.0),
+                       "kappa_ab": u.val(0.01, 0.06), "epsilon_k_ab": u.val(1500.0, 2800.0), "na": 1.0, "nb": 1.0})
+            } else {
+                json!({"m": u.val(1.0, 3.0), "sigma": u.val(3.0, 4.0), "epsilon_k": u.val(150.0, 300.0)})
+            }
+        }
         // PeTS
         4 => json!({"sigma": u.val(3.0, 4.0), "epsilon_k": u.val(100.0, 200.0)}),
         // uv-theory
@@ -435,8 +442,13 @@ where
 // ------------------------------------------------------------------ behaviour of a parameter set
 
 pub trait Behave: Parameter {
-    /// numbers that characterise the behaviour of the model built from the parameters
-    fn behave(self) -> Vec<f64>;
+    /// numbers that characterise the behaviour of the model built from the parameters,
+    /// evaluated for the given mole numbers (one per component, in component order)
+    fn behave_with(self, moles: Array1<f64>) -> Vec<f64>;
+    fn behave(self) -> Vec<f64> {
+        let n = self.records().0.len();
+        self.behave_with((0..n).map(|i| 0.5 + 0.3 * i as f64).collect())
+    }
 }
 
 fn state(n: usize) -> StateHD<f64> {
@@ -444,13 +456,18 @@ fn state(n: usize) -> StateHD<f64> {
     StateHD::new(350.0, 1500.0 * moles.sum(), moles)
 }
 
+/// mole number attached to a *substance* (not to a position), so that parameter sets holding
+/// the same substances in different orders describe the same mixture
+fn moles_of(subs: &[usize]) -> Array1<f64> {
+    subs.iter().map(|&k| 0.4 + 0.27 * k as f64).collect()
+}
+
 macro_rules! behave_eos {
     ($p:ty, $eos:ident) => {
         impl Behave for $p {
-            fn behave(self) -> Vec<f64> {
-                let n = self.records().0.len();
+            fn behave_with(self, moles: Array1<f64>) -> Vec<f64> {
                 let eos = $eos::new(Arc::new(self));
-                let s = state(n);
+                let s = StateHD::new(350.0, 1500.0 * moles.sum(), moles);
                 let mut v = vec![eos.residual_helmholtz_energy(&s)];
                 v.push(eos.compute_max_density(&s.moles));
                 v
@@ -466,26 +483,34 @@ behave_eos!(UVTheoryParameters, UVTheory);
 behave_eos!(PengRobinsonParameters, PengRobinson);
 
 impl Behave for SaftVRQMieParameters {
-    fn behave(self) -> Vec<f64> {
-        let n = self.records().0.len();
+    fn behave_with(self, moles: Array1<f64>) -> Vec<f64> {
         let eos = SaftVRQMie::new(Arc::new(self));
-        let moles: Array1<f64> = (0..n).map(|i| 0.5 + 0.3 * i as f64).collect();
         let s = StateHD::new(45.0, 900.0 * moles.sum(), moles);
         vec![eos.residual_helmholtz_energy(&s), eos.compute_max_density(&s.moles)]
     }
 }
 impl Behave for Joback {
-    fn behave(self) -> Vec<f64> {
-        let v: Vec<f64> = self.ln_lambda3(350.0).to_vec();
-        let w: Vec<f64> = self.ln_lambda3(411.0).to_vec();
-        v.into_iter().chain(w).collect()
+    fn behave_with(self, moles: Array1<f64>) -> Vec<f64> {
+        // mole-number weighted sums: invariant under a relabelling of the components
+        let v = (self.ln_lambda3(350.0) * &moles).sum();
+        let w = (self.ln_lambda3(411.0) * &moles).sum();
+        let mut per: Vec<f64> = self.ln_lambda3(377.0).to_vec();
+        per.sort_by(|a, b| a.total_cmp(b));
+        let mut r = vec![v, w];
+        r.extend(per);
+        r
     }
 }
 impl Behave for Dippr {
-    fn behave(self) -> Vec<f64> {
-        let v: Vec<f64> = self.ln_lambda3(350.0).to_vec();
-        let w: Vec<f64> = self.ln_lambda3(411.0).to_vec();
-        v.into_iter().chain(w).collect()
+    fn behave_with(self, moles: Array1<f64>) -> Vec<f64> {
+        // mole-number weighted sums: invariant under a relabelling of the components
+        let v = (self.ln_lambda3(350.0) * &moles).sum();
+        let w = (self.ln_lambda3(411.0) * &moles).sum();
+        let mut per: Vec<f64> = self.ln_lambda3(377.0).to_vec();
+        per.sort_by(|a, b| a.total_cmp(b));
+        let mut r = vec![v, w];
+        r.extend(per);
+        r
     }
 }
 
@@ -603,6 +628,37 @@ where
                     build_ref::<P>(&p, &bin)
                 });
                 out.count("op.from_json", 1);
+                // the same mixture requested in another order must behave identically (mole numbers
+                // are attached to substances): the model's own arrays must follow the requested order
+                // (not with two or more quadrupolar components: the PC-SAFT quadrupole mixture term
+                // itself is not symmetric in the component labels on this tree - polar.rs divides by
+                // sigma_ij[[di, di]]^7 - which concerns the model (C08/C09), not the construction)
+                let nquad = subs.iter().filter(|&&k| env.uni.pure[k]["model_record"].get("q").is_some()).count();
+                if !env.faulted && subs.len() >= 2 && groups.len() == 1 && nquad < 2 {
+                    if let Ok(a) = &lib {
+                        let _ = a;
+                        let fwd = P::from_json(groups[0].0.iter().map(|s| s.as_str()).collect(), groups[0].1.clone(), b.clone(), opt);
+                        let mut rsubs = subs.clone();
+                        rsubs.rotate_left(1);
+                        let rnames: Vec<String> = rsubs.iter().map(|&k| name_of(env, k)).collect();
+                        let rev = P::from_json(rnames.iter().map(|s| s.as_str()).collect(), groups[0].1.clone(), b.clone(), opt);
+                        if let (Ok(fwd), Ok(rev)) = (fwd, rev) {
+                            let (bf, br) = (fwd.behave_with(moles_of(subs)), rev.behave_with(moles_of(&rsubs)));
+                            let d = same(&bf, &br, 0.0);
+                            out.max("request_order_dev", d);
+                            out.count("oracle.compared", 1);
+                            if !(d <= 1e-9) && std::env::var("VERIF_DEBUG").is_ok() {
+                                eprintln!("records fwd: {}", serde_json::to_string(&records_value(&P::from_json(groups[0].0.iter().map(|s| s.as_str()).collect(), groups[0].1.clone(), b.clone(), opt).unwrap())).unwrap());
+                                eprintln!("records rev: {}", serde_json::to_string(&records_value(&P::from_json(rnames.iter().map(|s| s.as_str()).collect(), groups[0].1.clone(), b.clone(), opt).unwrap())).unwrap());
+                            }
+                            // iterative association solvers agree to ~3e-12 between orders; a component
+                            // stored at the wrong position changes the behaviour at the percent level
+                            if !(d <= 1e-9) {
+                                out.violate("request-order-dependence", "request-order", format!("{}: the same substances requested in the orders {subs:?} and {rsubs:?} behave differently: {bf:?} vs {br:?}", what("from_json")));
+                            }
+                        }
+                    }
+                }
                 compare(out, dg, &what("from_json"), lib, reference, env.faulted);
             }
             Query::JsonDuplicate { subs, dup } => {
@@ -1013,7 +1069,7 @@ fn run_segments(env: &Env, out: &mut RunOutcome, dg: &mut Digest) {
                                         let k_lib = p.binary_records.as_ref().map_or(0.0, |b| b[(i, j)].k_ij);
                                         // the matrix is symmetric by construction: the pair is looked up once, for i < j
                                         let k_ref = kij_ref(i.min(j), i.max(j));
-                                        let d = (k_lib - k_ref).abs();
+                                        let d = (k_lib - k_ref).abs() / (1.0 + 10.0 * k_ref.abs());
                                         out.max("segments_kij_abs_dev", d);
                                         if !(d <= 1e-13) {
                                             out.violate("segments-kij-mismatch", "segments-kij", format!("{what}: k_ij[{i},{j}] = {k_lib}, count-weighted average of the segment records gives {k_ref}"));
@@ -1433,5 +1489,25 @@ impl Engine for C14 {
             "under a disk fault the call may fail; if it succeeds it must agree with the reference loader applied to the bytes now on disk".into(),
             "behaviour equality judged at 1e-12 relative (hash order changes the summation order of segment contributions in the last bits)".into(),
         ]
+    }
+}
+
+
+/// debugging aid: per-contribution Helmholtz energies of a PC-SAFT mixture in both component orders
+pub fn debug_pcsaft(path: &str) {
+    let recs: Vec<PureRecord<feos::pcsaft::PcSaftRecord>> = serde_json::from_str(&std::fs::read_to_string(path).unwrap()).unwrap();
+    let mut rev = recs.clone();
+    rev.reverse();
+    let n = recs.len();
+    let moles: Array1<f64> = (0..n).map(|i| 0.5 + 0.9 * i as f64).collect();
+    let mut rmoles = moles.to_vec();
+    rmoles.reverse();
+    for (r, m) in [(recs, moles.clone()), (rev, Array1::from_vec(rmoles))] {
+        let eos = PcSaft::new(Arc::new(PcSaftParameters::from_records(r, None).unwrap()));
+        let s = StateHD::new(350.0, 1500.0 * m.sum(), m);
+        for (name, a) in eos.residual_helmholtz_energy_contributions(&s) {
+            println!("{name:30} {a:.15e}");
+        }
+        println!("--");
     }
 }
